@@ -335,6 +335,12 @@ def run_case(case, ctx):
                             if float(al[b_, p_]) == 0.0 or bool(hc[b_, p_]):
                                 masked = True
                                 break
+                            # a probe whose (normalised) residual has reached the solver's accuracy floor has effectively converged:
+                            # its later coefficients are formed from rounding-level residuals (off-diagonals below the 1e-6 threshold)
+                            rn = it.get("residual_norm")
+                            if rn is not None and float(rn.reshape(-1, rn.shape[-1])[b_, p_]) < 1e-4:
+                                masked = True
+                                break
                         if masked:
                             continue
                         z = zf[b_, :, p_]
